@@ -12,6 +12,7 @@ import BV.C13.LemmasMtp
 import BV.C13.LemmasStore
 import BV.C13.LemmasBip68
 import BV.C13.LemmasPush
+import BV.C13.LemmasSanity
 import BV.Generated.C13
 namespace BV.C13
 open Spec
@@ -218,6 +219,32 @@ theorem sigOpCost_coinbase (t : Tx) (utxos : List Utxo) (b16 sw : Bool) :
     getSigOpCost t true utxos b16 sw = some (4 * countSigOps t) := by
   unfold getSigOpCost countP2SHSigOps
   cases b16 <;> simp [WITNESS_SCALE_FACTOR, Nat.mul_comm]
+
+/-! ### block sanity: what `checkBlockSanity` does with the merkle root and the legacy sigops -/
+
+/-- after the header / coinbase / per-transaction checks a block passes `checkBlockSanity` iff its
+    header commits to the computed root, no txid occurs twice (the CVE-2012-2459 guard: a duplicated
+    tail keeps the root, see `mroot_dup_last`) and 4·(legacy sigops) ≤ MaxBlockSigOpsCost. -/
+theorem blockSanity_ok_iff {β : Type} [DecidableEq β] (headerRoot c : β) (txids : List β) (sigops : List Nat) :
+    checkBlockSanityTail headerRoot (some c) txids sigops = some .ok ↔
+      headerRoot = c ∧ txids.Nodup ∧ 4 * sigops.sum ≤ 80000 := by
+  unfold checkBlockSanityTail
+  simp only []
+  by_cases h1 : headerRoot = c
+  · by_cases h2 : hasDup txids = true
+    · have : ¬ txids.Nodup := by
+        intro hn; rw [← Lemmas.hasDup_false_iff] at hn; rw [hn] at h2; cases h2
+      simp [h1, h2, this]
+    · have h2' : hasDup txids = false := by simpa using h2
+      have hn := (Lemmas.hasDup_false_iff txids).mp h2'
+      by_cases h3 : sigOpsLoop 80000 sigops 0 = true
+      · have := (Lemmas.sigOpsLoop_zero_iff 80000 sigops).mp h3
+        simp [h1, h2', h3, hn, this]
+      · have h3' : sigOpsLoop 80000 sigops 0 = false := by simpa using h3
+        have : ¬ 4 * sigops.sum ≤ 80000 := by
+          intro h; rw [← Lemmas.sigOpsLoop_zero_iff] at h; rw [h] at h3'; cases h3'
+        simp [h1, h2', h3', this]
+  · simp [h1]
 
 /-! ### coinbase height (BIP34) -/
 
